@@ -116,6 +116,20 @@ impl Monitor for C03Monitor {
                     r.count("ledger_classifications", c2);
                     issues.extend(i2);
                     issues.extend(Self::dropped_key_check(w, &obs));
+                    // "removed from configuration ... is gone from the
+                    // repository": the ledger alone calls an object current
+                    // as long as its manifest lists it; what is validated
+                    // but no longer configured is a removal that was not
+                    // carried out
+                    r.count("removed_configuration_checks", 1);
+                    let (c01, _) = oracle::c01_check(w, &obs);
+                    for (sig, d) in c01 {
+                        if sig.contains("-extra") {
+                            issues.push((
+                                format!("removed-from-configuration-still-published:{sig}"),
+                                d));
+                        }
+                    }
                 }
             }
         }
@@ -127,6 +141,10 @@ impl Monitor for C03Monitor {
         &mut self, _w: &mut World, _ctx: &Ctx, r: &mut Report
     ) -> Vec<Issue> {
         r.count("superseded_found_on_crl", self.ledger.superseded_on_crl);
+        // requests the second publication server answered (cumulative per
+        // process; the migrations were real exchanges)
+        r.max("second_server_requests_served", kvh::remote::SERVED.load(
+            std::sync::atomic::Ordering::SeqCst));
         r.count("superseded_expired_or_key_gone",
                 self.ledger.superseded_expired_or_no_crl);
         for c in &self.ledger.causes {
@@ -142,7 +160,7 @@ fn boundary_script(which: u64) -> (Vec<Op>, bool) {
         add: add.iter().map(|s| s.to_string()).collect(),
         remove: rem.iter().map(|s| s.to_string()).collect(),
     };
-    match which % 5 {
+    match which % 7 {
         // mapped class name; the child rolls its key (revocation request
         // under the name the child was told)
         0 => (vec![
@@ -200,6 +218,38 @@ fn boundary_script(which: u64) -> (Vec<Op>, bool) {
             Op::DeleteCa { ca: "mid".into() }, Op::Quiesce,
             Op::SyncAll, Op::Quiesce,
         ], true),
+        // the CA moves to another publication server (a key roll whose new
+        // key publishes there) and loses its parent while both publication
+        // points are in use: nothing of it may stay at either server
+        5 => (vec![
+            roa("leaf", &["10.0.0.0/24 => 65000", "10.1.0.0/24 => 65000"], &[]),
+            Op::Quiesce,
+            Op::RepoMigrate { ca: "leaf".into() }, Op::Quiesce,
+            Op::SyncAll, Op::Quiesce,
+            roa("leaf", &[], &["10.1.0.0/24-24 => 65000"]), Op::Quiesce,
+            Op::RemoveParent { ca: "leaf".into(), parent: "mid".into() },
+            Op::Quiesce, Op::SyncAll, Op::Quiesce,
+        ], true),
+        // a complete move to the other server and back: each time the
+        // retired key's publication point is emptied and its certificate
+        // revoked; objects replaced and removed on the way
+        6 => (vec![
+            roa("leaf", &["10.0.0.0/24 => 65000", "10.1.0.0/24 => 65000"], &[]),
+            Op::AspaUpdate { ca: "leaf".into(),
+                add: vec!["65000 => 65001".into()], remove: vec![] },
+            Op::Quiesce,
+            Op::RepoMigrate { ca: "leaf".into() }, Op::Quiesce,
+            Op::SyncAll, Op::Quiesce,
+            roa("leaf", &["10.0.0.0/24-25 => 65000"], &["10.1.0.0/24-24 => 65000"]),
+            Op::Quiesce,
+            Op::RollActivate { ca: "leaf".into() }, Op::Quiesce,
+            Op::SyncAll, Op::Quiesce, Op::SyncAll, Op::Quiesce,
+            roa("leaf", &[], &["10.0.0.0/24-24 => 65000"]), Op::Quiesce,
+            Op::RepoMigrateBack { ca: "leaf".into() }, Op::Quiesce,
+            Op::SyncAll, Op::Quiesce,
+            Op::RollActivate { ca: "leaf".into() }, Op::Quiesce,
+            Op::SyncAll, Op::Quiesce, Op::SyncAll, Op::Quiesce,
+        ], true),
         // three classes under one parent, two of them lost at once: both
         // revocations must reach the parent
         4 => (oracle::three_classes_script(), false),
@@ -223,8 +273,8 @@ fn run_history(
     replay_chain: Option<bool>, replay_steps: Option<Vec<Option<String>>>,
 ) -> bool {
     let mut rng = Rng::new(seed);
-    let boundary = if idx < 5 { Some(idx) }
-        else if rng.chance(1, 3) { Some(rng.below(5)) } else { None };
+    let boundary = if idx < 7 { Some(idx) }
+        else if rng.chance(1, 3) { Some(rng.below(7)) } else { None };
     let (bscript, chain) = match boundary {
         Some(b) => boundary_script(b),
         None => (vec![], rng.chance(1, 2)),
@@ -235,6 +285,8 @@ fn run_history(
         else { rng.range(10, 18) } as usize;
     let mut cfg = WorldCfg::new(args.work.join(format!("h{idx}")));
     cfg.aggregate = agg;
+    // the random part may move CAs to a second publication server and back
+    cfg.allow_remote = true;
     let mut script = if chain { hist::chain_forest() }
         else { hist::standard_forest(true) };
     let n_setup = script.len();
@@ -268,8 +320,8 @@ fn main() {
     }
     let mut idx = 0u64;
     loop {
-        let hist_idx = if idx == 0 && args.shard < 5 { args.shard }
-            else { 5 + idx };
+        let hist_idx = if idx == 0 && args.shard < 7 { args.shard }
+            else { 7 + idx };
         let seed = args.shard_seed().wrapping_mul(7919).wrapping_add(hist_idx);
         run_history(&mut r, &args, hist_idx, seed, None, None, None);
         idx += 1;
